@@ -36,6 +36,8 @@ def c20(run):
     run.trusted += ['IANA snapshot coq/Spec/IanaSnapshot.v: hand transcription of the registries (no network), reviewed entry by entry']
     run.assumptions += ['the snapshot is the IANA assignment; constant names are matched by Go identifier']
     D.prove(run, extra_targets=['Model/IanaCheck.vo'])
+    if run.tier == 'thorough' and not run.broken:
+        D.coqchk(run, 'Cose.Props.C20')
     rc, out, dt = D.coqc_file(os.path.join(D.COQ, 'Diag', 'C20Diag.v'))
     if rc != 0:
         run.broke('diagnostics Diag/C20Diag.v do not evaluate', out[-1500:])
